@@ -201,6 +201,35 @@ KadPeerIdVerdict(c) == IF ImplAcceptsPeerId(c) THEN "usable" ELSE "dropped"
 AcceptedValuesUsable(c) == ImplAcceptsPeerId(c) => PeerIdUsable(c)
 
 -----------------------------------------------------------------------------
+(* G. Bitswap inbound payload block: the CID prefix of a block is four        *)
+(* remote-chosen varints (version, codec, multihash code, digest length).     *)
+(* Class [shape, ver, codec, hash, mhlen, plen]:                              *)
+(*   shape  ok (four varints) | three | five | trailing | overlong (a varint  *)
+(*          of more than ten bytes)                                           *)
+(*   ver    v0 | v1 | v2plus          codec  dagpb | raw | other              *)
+(*   hash   a compiled-in hasher | unsupported | identity                     *)
+(*   mhlen  declared digest length relative to the hasher's digest size:      *)
+(*          0 | 1 | size_m1 | size | size_p1 | 64 | 65 | 127 | 255 |          *)
+(*          multibyte (a value >= 256)                                        *)
+(*   plen   payload length: 0 | 1 | typical                                   *)
+BsHashes == {"sha2_256", "sha2_512", "sha3_256", "sha3_384", "keccak_256", "blake2b_256", "blake2b_512",
+             "unsupported", "identity"}
+BsSupported == BsHashes \ {"unsupported", "identity"}
+BsMhLens == {"0", "1", "size_m1", "size", "size_p1", "64", "65", "127", "255", "multibyte"}
+BsBlockClasses ==
+       [shape : {"ok"}, ver : {"v0", "v1", "v2plus"}, codec : {"dagpb", "raw", "other"}, hash : BsHashes,
+        mhlen : BsMhLens, plen : {"0", "1", "typical"}]
+  \cup [shape : {"three", "five", "trailing", "overlong"}, ver : {"v1"}, codec : {"raw"}, hash : {"sha2_256"},
+        mhlen : {"size"}, plen : {"0", "typical"}]
+\* Impl: Prefix::from_bytes + block_to_response; the declared digest length only has to fit
+\* a byte, it is not used to build the CID
+BsBlockVerdict(c) ==
+  IF /\ c.shape = "ok" /\ c.ver \in {"v0", "v1"} /\ c.mhlen # "multibyte"
+     /\ c.hash \in BsSupported
+     /\ (c.ver = "v1" \/ (c.codec = "dagpb" /\ c.hash = "sha2_256"))
+  THEN "value" ELSE "dropped"
+
+-----------------------------------------------------------------------------
 (* Prop layer                                                                *)
 AllocSlack == 65536              \* the "+ constant" of the allocation bound
 \* any decoder observation: out is never a panic / hang / abort; the largest single
